@@ -13,5 +13,5 @@ $CC $FL -w -DMPIR_VERIF -I$B -I$HERE/harness -c $HERE/harness/rec.c -o $B/hx_rec
 $CC $FL -w -DMPIR_VERIF -I$B -I$HERE/harness -c $HERE/harness/gen/api_glue.c -o $B/hx_api_glue.o
 $CC $FL -no-pie -Wl,-Map=$B/verif-hx.map -o $B/verif-hx $B/hx_main.o $B/hx_rec.o $B/hx_api_glue.o $(ls $HERE/harness/drv_*.c | sed "s#.*/drv_\(.*\)\.c#$B/hx_drv_\1.o#") $B/.libs/libmpir.a -lm -lpthread
 python3 $HERE/lib/mapranges.py $B/verif-hx.map $B/verif-hx > $B/verif-hx.gw
-$CC -O0 -w -DMPIR_VERIF -I$B -o $B/verif-probe $HERE/harness/probe.c
+$CC -O0 -w -no-pie -DMPIR_VERIF -I$B -o $B/verif-probe $HERE/harness/probe.c $B/.libs/libmpir.a
 echo $STAMP > $B/verif-hx.stamp
